@@ -12,7 +12,8 @@
 (* caller notices the ended context and reports the error while keeping it.    *)
 EXTENDS LockContract
 
-CONSTANTS NG, Rounds, Modes, LeakOnCancel
+CONSTANTS NG, Rounds, Modes, LeakOnCancel,
+          DeafWaiter   \* TRUE: defect variant - a blocked waiter does not react to its context
 G == 1..NG
 
 VARIABLES tok, sendq, rww, rwr, cancelled, pc, mode, left, c
@@ -38,7 +39,7 @@ Select(g) == /\ pc[g] = "call"
 Cancel(g) == /\ pc[g] \in {"call", "blocked", "tok"} /\ ~cancelled[g]
              /\ cancelled' = [cancelled EXCEPT ![g] = TRUE]
              /\ c' = CNext(c, Ev("cancel", g))
-             /\ IF pc[g] = "blocked" THEN sendq' = SelectSeq(sendq, LAMBDA x : x # g) /\ pc' = [pc EXCEPT ![g] = "reterr"]
+             /\ IF pc[g] = "blocked" /\ ~DeafWaiter THEN sendq' = SelectSeq(sendq, LAMBDA x : x # g) /\ pc' = [pc EXCEPT ![g] = "reterr"]
                                      ELSE UNCHANGED <<sendq, pc>>
              /\ UNCHANGED <<tok, rww, rwr, mode, left>>
 (* context.go:39 / 55: c.lock.Lock() / RLock() *)
@@ -67,12 +68,16 @@ Recv(g) == /\ pc[g] = "unl2" /\ tok = 1
            /\ left' = [left EXCEPT ![g] = @ - 1]
            /\ c' = CNext(c, Ev("rel_ret", g))
            /\ UNCHANGED <<rww, rwr, cancelled, mode>>
+(* a quiescent point as the harness sees it: everybody is blocked in the select or inside a critical section *)
+Quiet == /\ \A g \in G : pc[g] \in {"idle", "blocked", "in"}
+         /\ c' = CNext(c, [ev |-> "quiet"])
+         /\ UNCHANGED <<tok, sendq, rww, rwr, cancelled, pc, mode, left>>
 (* end of run: nobody cancels any more; whoever still waits will wait forever *)
 Stuck == /\ \A g \in G : pc[g] = "blocked" \/ (pc[g] = "idle" /\ left[g] = 0)
          /\ \E g \in G : pc[g] = "blocked" /\ c' = CNext(c, Ev("stuck", g))
          /\ UNCHANGED <<tok, sendq, rww, rwr, cancelled, pc, mode, left>>
 
-Next == \/ Stuck
+Next == \/ Stuck \/ Quiet
         \/ \E g \in G : \/ \E m \in Modes, pre \in BOOLEAN : Call(g, m, pre)
                         \/ Select(g) \/ Cancel(g) \/ TakeRW(g) \/ Ret(g) \/ RetErr(g) \/ Exit(g) \/ RwUnlock(g) \/ Recv(g)
 Spec == Init /\ [][Next]_vars /\ WF_vars(Next)
